@@ -1,6 +1,7 @@
 import CssVerif.Lemmas.TokLex2
 import CssVerif.Lemmas.TokComment
 import CssVerif.Lemmas.TokStrItems
+import CssVerif.Lemmas.TokIdentDash
 /-!
 # Lexeme separation for all token classes (`Lex2`, `render2`, `expectedAll`)
 -/
@@ -60,6 +61,7 @@ inductive Lex2 where
   | cmt (body : Cps)                       -- COMMENT: `/*`, a body in which no `*/` ends, `*/`
   | cdc                                    -- CDC `-->`
   | strI (q : Nat) (its : List SItem)      -- STRING with escapes / line continuations: quote, items, quote
+  | identD (n c : Nat) (cs : Cps)          -- IDENT that starts with one or two hyphens
 
 def Lex2.text : Lex2 → Cps
   | .old t => t.text
@@ -70,6 +72,7 @@ def Lex2.text : Lex2 → Cps
   | .cmt body => 47 :: 42 :: body ++ [42, 47]
   | .cdc => cdcText
   | .strI q its => q :: flat its ++ [q]
+  | .identD n c cs => dashes n ++ c :: cs
 
 def Lex2.typ : Lex2 → String
   | .old t => t.typ
@@ -80,6 +83,7 @@ def Lex2.typ : Lex2 → String
   | .cmt _ => "COMMENT"
   | .cdc => "CDC"
   | .strI _ _ => "STRING"
+  | .identD _ _ _ => "IDENT"
 
 /-- the expected token value: the text itself, except for strings with escapes (one-pass decoding) -/
 def Lex2.value : Lex2 → Cps
@@ -95,6 +99,7 @@ def Lex2.WF : Lex2 → Prop
   | .cmt body => firstClose (body ++ [42]) = none
   | .cdc => True
   | .strI q its => (q = 34 ∨ q = 39) ∧ ∀ i ∈ its, i.WF q
+  | .identD n c cs => (n = 1 ∨ n = 2) ∧ inR nameStart c = true ∧ ∀ x ∈ cs, inR identRest x = true
 
 /-- the lexemes joined by single spaces -/
 def render2 : List Lex2 → Cps
@@ -230,6 +235,25 @@ theorem lex2_step (doC : Bool) (t : Lex2) (h : t.WF) (stop : Cps) (hs : Sep stop
     · have hu : unescTypes.contains "STRING" = true := by decide
       have hc : cleanTypes.contains "STRING" = true := by decide
       simp only [valueOf, hu, hc, if_true, subS_eq_stringValue, Lex2.value]
+  | identD n c cs =>
+    obtain ⟨hn, hc, hcs⟩ := h
+    have hd45 : ∀ x ∈ dashes n, x = 45 := by
+      rcases hn with rfl | rfl <;> simp [dashes]
+    have hne : dashes n ++ c :: cs ≠ [] := by simp
+    apply loop_step2 doC fuel (dashes n ++ c :: cs) stop line col "IDENT" hne
+    · intro c' t e
+      have : c' = 45 := by
+        rcases hn with rfl | rfl <;> simp [dashes] at e <;> exact e.1.symm
+      rw [this]; decide
+    · have := scan_ident_dash doC n hn c cs stop hc hcs hs
+      simpa [List.append_assoc, dashes_length] using this
+    · apply valueOf_ident
+      intro x hx
+      simp only [List.mem_append, List.mem_cons] at hx
+      rcases hx with hx | rfl | hx
+      · rw [hd45 x hx]; decide
+      · exact ne92_of_inR nameStart (by decide) _ hc
+      · exact ne92_of_inR identRest (by decide) _ (hcs x hx)
 
 theorem lex2_head (t : Lex2) (h : t.WF) : ∃ c w, t.text = c :: w ∧ inR lexHeads c = true := by
   cases t with
@@ -254,6 +278,10 @@ theorem lex2_head (t : Lex2) (h : t.WF) : ∃ c w, t.text = c :: w ∧ inR lexHe
   | strI q its =>
     refine ⟨q, flat its ++ [q], rfl, ?_⟩
     rcases h.1 with rfl | rfl <;> decide
+  | identD n c cs =>
+    rcases h.1 with rfl | rfl
+    · exact ⟨45, c :: cs, rfl, by decide⟩
+    · exact ⟨45, 45 :: c :: cs, rfl, by decide⟩
 
 theorem render2_head (t : Lex2) (ts : List Lex2) (h : t.WF) :
     ∃ c w, render2 (t :: ts) = c :: w ∧ inR lexHeads c = true := by
